@@ -43,3 +43,6 @@ fi
 if [ "$MODE" = "benign" ] || [ "$MODE" = "all" ]; then
   "$D/selftest/run_benign.sh"
 fi
+if [ "$MODE" = "negatives" ] || [ "$MODE" = "all" ]; then
+  "$D/selftest/negatives.sh"
+fi
